@@ -36,7 +36,7 @@ RW = "xyz"
 PAIRS = ["ss", "tt", "uu", "vv", "dd", "xx", "yy"]
 ALIASES = ["PC", "USR", "LR", "SP", "FP", "GP", "LC0", "SA0", "UGP", "CS0", "M0", "UPCYCLE", "FRAMEKEY", "LC1"]
 IMMS = "rRsSuUmn"
-IDENTS = ["tmp", "EA", "i", "j", "foo1", "a", "b", "x1", "RsVx", "Rs", "siVx", "xRsV", "P", "R", "PuNx", "HEX_REG", "R3x",
+IDENTS = ["tmp", "EA", "i", "j", "foo1", "cnt_t", "len_t", "my_int32_t", "a", "b", "x1", "RsVx", "Rs", "siVx", "xRsV", "P", "R", "PuNx", "HEX_REG", "R3x",
           "width", "_t", "N", "sV", "iV", "Rdd", "V", "RsN_", "uiv",
           # identifiers that merely start (or end) like a keyword or a built-in terminal
           "done", "format", "iface", "breakpoint", "elsewhere", "ifx", "fort", "int_x", "returned", "doit", "switcher",
@@ -227,7 +227,8 @@ class CGen:
         if k == "bin":
             op = n[1]
             p = BIN[op]
-            l = par(n[2], self.prec(n[2]) < p)               # left associative: equal precedence is fine on the left
+            # (a plain identifier in redundant parentheses in front of + - * & is still an operand, never a cast)
+            l = par(n[2], self.prec(n[2]) < p or (n[2][0] == "atom" and n[2][1][0] == "id" and self.ch.draw(5, "id-parens") == 0))
             r = par(n[3], self.prec(n[3]) <= p)
             a, b = self.sp(), self.sp()
             # token pasting hazards: '+ +x', '- -x', '& &x', 'x++ + y', '< <', '/ *'
